@@ -63,6 +63,13 @@ def cases(ctx):
         m = models.gen_model(rng, n_ops=rng.randint(1, 6), sinks=rng.random() < 0.6, table=models.gen_table(rng, nrows=nrows, exotic_names=False), cmds=safe_)
         if nrows >= 2 and i % 2:
             m["table"]["blank_before"] = sorted(set([1, nrows // 2, nrows - 1]))      # empty lines between the records
+        if nrows >= 2 and i % 3 == 0:
+            # whole decimals written without a decimal point in the first row only, fractions in other rows
+            m["table"]["bare_whole"] = [0]
+            for c_ in m["table"]["cols"].values():
+                if not c_["integer"] and c_["data"][0] != m["table"]["missing"]:
+                    c_["data"][0] = float(rng.choice([3, -2, 7]))
+                    c_["data"][1] = rng.choice([0.25, -0.5, 2.75])
         yield {"kind": "csvrows", "model": m, "nrows": nrows}
     for i in range(ctx.n(3, 30)):
         j = i * ctx.nshards + ctx.shard
@@ -109,6 +116,18 @@ def run_csvrows(ctx, case):
         else:
             ctx.dontcare("few-row model raises %s" % type(e).__name__)
         return
+    for cm in model["commands"]:
+        # every column read holds the numbers of the table, whichever row they stand in
+        if cm["cmd"] == "EEMSRead" and isinstance(prog.commands[cm["result"]]._result, numpy.ndarray):
+            col = model["table"]["cols"][cm["args"]["InFieldName"]]
+            got = prog.commands[cm["result"]]._result
+            miss = cm["args"].get("MissingVal")
+            for j_, v_ in enumerate(col["data"]):
+                if miss is not None and float(v_) == float(miss):
+                    continue
+                if j_ < got.size and (numpy.ma.getmaskarray(got).reshape(-1)[j_] or float(numpy.ma.getdata(got).reshape(-1)[j_]) != float(v_)):
+                    ctx.fail("EEMSRead:cells-not-independent:value-depends-on-the-other-rows-of-the-table", {"row": j_, "got": repr(numpy.ma.getdata(got).reshape(-1)[j_].item()), "want": v_, "first_row_text": models._cell_text(model["table"], col["data"][0], 0)})
+                    return
     for name, c in prog.commands.items():
         r = c._result
         if isinstance(r, numpy.ndarray):
